@@ -902,6 +902,25 @@ func parseAssigns(text, where string) ([]AssignItem, error) {
 	for _, part := range splitTop(text, ',') {
 		part = strings.TrimSpace(part)
 		switch {
+		case strings.HasPrefix(part, "all(") && strings.HasSuffix(part, ")"):
+			// all(T): every object of type T (a whole heap component)
+			lx, err := lex(part[4:len(part)-1], where)
+			if err != nil {
+				return nil, err
+			}
+			var te *TypeExpr
+			func() {
+				defer func() {
+					if r := recover(); r != nil {
+						err = fmt.Errorf("%s: bad type in %q", where, part)
+					}
+				}()
+				te = lx.parseType()
+			}()
+			if err != nil {
+				return nil, err
+			}
+			items = append(items, AssignItem{Kind: "allof", Type: te})
 		case strings.HasPrefix(part, "any("):
 			// any(*T).f : field f of every object of type T
 			j := strings.Index(part, ").")
